@@ -107,11 +107,32 @@ pub fn split_for_execdir(p: &str) -> (String, String) {
     }
 }
 
+/// Byte version: (parent directory, lossy and normalised; b"./basename").
+pub fn split_for_execdir_bytes(p: &[u8]) -> (String, Vec<u8>) {
+    let mut end = p.len();
+    while end > 0 && p[end - 1] == b'/' {
+        end -= 1;
+    }
+    let t = &p[..end];
+    let mut name = b"./".to_vec();
+    match t.iter().rposition(|b| *b == b'/') {
+        Some(k) => {
+            name.extend_from_slice(&t[k + 1..]);
+            (norm_dir(&String::from_utf8_lossy(&t[..k])), name)
+        }
+        None => {
+            name.extend_from_slice(t);
+            (String::new(), name)
+        }
+    }
+}
+
 impl Property for C09 {
     const ID: &'static str = "C09";
     type Sc = Sc;
 
     fn generate(rng: &mut Rng, _tier: Tier) -> Sc {
+        let mutate = rng.chance(1, 4);
         let cfg = TreeCfg {
             roots: vec!["t".into()],
             max_entries: *rng.pick(&[0, 3, 6, 10, 18]),
@@ -121,6 +142,8 @@ impl Property for C09 {
             allow_loops: false,
             outside: false,
             fifo: false,
+            // file names need not be valid UTF-8 (the reference walk of the mutation runs works on strings)
+            raw_byte: if !mutate && rng.chance(1, 3) { Some(*rng.pick(&[0xffu8, 0xe9, 0xc3, 0x80])) } else { None },
         };
         let spec = gen_tree(rng, &cfg);
         let starts = match rng.weighted(&[6, 2, 2, 1]) {
@@ -144,7 +167,6 @@ impl Property for C09 {
                 templates[i] = "++".into();
             }
         }
-        let mutate = rng.chance(1, 4);
         let tests = if mutate { vec![] } else { gen_stable_tests(rng) };
         let mut find = FindScenario::new(spec, vec![]);
         let npaths = find.tree.nodes.len() * starts.len() + 2;
@@ -235,6 +257,9 @@ impl Property for C09 {
         if sc.execdir {
             rep.probe("execdir");
         }
+        if sc.find.tree.raw_byte.is_some() && sc.find.tree.nodes.iter().any(|n| n.path().contains(tree::RAW_SENTINEL)) {
+            rep.probe("file_name_not_valid_utf8");
+        }
         if sc.templates.iter().any(|t| t.matches("{}").count() > 1) {
             rep.probe("several_placeholders_in_one_argument");
         }
@@ -294,7 +319,7 @@ impl Property for C09 {
         while i < items.len() {
             match &items[i] {
                 Item::Rec(p) if p.as_slice() != OK => {
-                    let path = p.clone();
+                    let path = tree::unlossy(sc.find.tree.raw_byte, p);
                     reached.push(String::from_utf8_lossy(&path).into_owned());
                     // exactly one spawn, at this point of the evaluation
                     let Some(Item::Spawn(argv, cwd, outcome)) = items.get(i + 1) else {
@@ -302,10 +327,9 @@ impl Property for C09 {
                         return;
                     };
                     spawn_no += 1;
-                    let ps = String::from_utf8_lossy(&path).into_owned();
                     let (want_path, want_dir): (Vec<u8>, Option<String>) = if sc.execdir {
-                        let (d, n) = split_for_execdir(&ps);
-                        (n.into_bytes(), Some(d))
+                        let (d, n) = split_for_execdir_bytes(&path);
+                        (n, Some(d))
                     } else {
                         (path.clone(), None)
                     };
